@@ -51,7 +51,7 @@ func (c *countCtx) polls() int {
 	return c.n
 }
 
-var stubNames = []string{"probe", "id", "probe2", "probe3", "vprobe", "fv", "typed", "typed2", "boom", "zero", "two"}
+var stubNames = []string{"probe", "id", "probe2", "probe3", "vprobe", "fv", "typed", "typed2", "vtyped", "boom", "zero", "two"}
 
 // vmResult is one run of a parsed program on the real interpreter.
 type vmResult struct {
@@ -91,6 +91,12 @@ func defineStubs(e *env.Env, tr func(interface{})) {
 	}))
 	must(e.Define("typed", func(i int64) int64 { tr(i); return i }))
 	must(e.Define("typed2", func(a interface{}, i int64) int64 { tr(a); tr(i); return i }))
+	must(e.Define("vtyped", func(xs ...int64) int64 {
+		for _, x := range xs {
+			tr(x)
+		}
+		return int64(len(xs))
+	}))
 	must(e.Define("boom", func() { panic("boom") }))
 	must(e.Define("zero", func() {}))
 	must(e.Define("two", func() (interface{}, interface{}) { return int64(1), "two" }))
